@@ -22,6 +22,7 @@ from liquer.parser import all_splits, encode, decode
 import logging
 import traceback
 import base64
+from copy import deepcopy
 import numpy as np
 
 _cache = None
@@ -422,7 +423,7 @@ class MemoryCache(CacheMixin):
         if state is None:
             return None
         else:
-            return dict(**state.metadata)
+            return deepcopy(state.metadata)
 
     def store(self, state):
         if state.is_error:
@@ -437,7 +438,7 @@ class MemoryCache(CacheMixin):
         if key not in self.storage:
             self.storage[key] = State()
             self.metadata_only.add(key)
-        self.storage[key].metadata = metadata
+        self.storage[key].metadata = deepcopy(metadata)
 
         return True
 
